@@ -362,7 +362,7 @@ package eval
 
 //@ func Expr.Eval C01 C03 C06 C07 C09
 //@   requires [wf] (WF $e)
-//@   requires [ctx] (and (not (= $ctx 0)) (not (= (fld $ctx VariableFetcher) 0)))
+//@   requires [ctx] (and (not (= $ctx 0)) (not (= (fld $ctx VariableFetcher) VNil)))
 //@   ensures [error-identity] (=> (not (= $ret1 ENil)) (= $ret1 (heap last.err)))
 //@   ensures [frame] (forall ((r Int)) (! (=> (< r (old (next))) (= (select (heap E_Value) r) (select (old (heap E_Value)) r))) :pattern ((select (heap E_Value) r))))
 //@   assigns next E_Value sent.* dyn.* last.err inv.*
@@ -393,7 +393,7 @@ package eval
 //@   assigns
 
 //@ func fetchVariableValueProxy C04 C05 C11
-//@   requires [node] (and (not (= $n 0)) (not (= $ctx 0)) (not (= (fld $ctx VariableFetcher) 0)) (is.string (fld $n value)))
+//@   requires [node] (and (not (= $n 0)) (not (= $ctx 0)) (not (= (fld $ctx VariableFetcher) VNil)) (is.string (fld $n value)))
 //@   ensures [unavailable-is-DNE] (let ((f (fld $ctx VariableFetcher)) (k (fld $n varKey)) (s (p_string (fld $n value))))
 //@      (=> (not (inv_Cached_0 f k s)) (and (= $ret0 (DNEVAL)) (= $ret1 ENil) (= (heap inv.Get.n) (old (heap inv.Get.n))))))
 //@   ensures [available-is-Get] (let ((f (fld $ctx VariableFetcher)) (k (fld $n varKey)) (s (p_string (fld $n value))))
@@ -419,14 +419,14 @@ package eval
 //@   assigns dyn.* last.err
 
 //@ func getNodeValueProxy C04 C05
-//@   requires [node] (and (not (= $n 0)) (not (= $ctx 0)) (not (= (fld $ctx VariableFetcher) 0)) (=> (not (= (KIND $n) 1)) (is.string (fld $n value))))
+//@   requires [node] (and (not (= $n 0)) (not (= $ctx 0)) (not (= (fld $ctx VariableFetcher) VNil)) (=> (not (= (KIND $n) 1)) (is.string (fld $n value))))
 //@   ensures [constant] (=> (= (KIND $n) 1) (and (= $ret0 (fld $n value)) (= $ret1 ENil) (= (heap inv.Get.n) (old (heap inv.Get.n)))))
 //@   ensures [error-identity] (=> (not (= $ret1 ENil)) (= $ret1 (heap last.err)))
 //@   assigns inv.* last.err
 
 //@ func Expr.EvalBool C01 C06
 //@   requires [wf] (WF $e)
-//@   requires [ctx] (and (not (= $ctx 0)) (not (= (fld $ctx VariableFetcher) 0)))
+//@   requires [ctx] (and (not (= $ctx 0)) (not (= (fld $ctx VariableFetcher) VNil)))
 //@   ensures [frame] (forall ((r Int)) (! (=> (< r (old (next))) (= (select (heap E_Value) r) (select (old (heap E_Value)) r))) :pattern ((select (heap E_Value) r))))
 //@   assigns next E_Value sent.* dyn.* last.err inv.*
 
@@ -646,7 +646,7 @@ package eval
 
 //@ func Expr.TryEval C04 C05 C06 C07 C09
 //@   requires [wf] (WFT $e)
-//@   requires [ctx] (and (not (= $ctx 0)) (not (= (fld $ctx VariableFetcher) 0)))
+//@   requires [ctx] (and (not (= $ctx 0)) (not (= (fld $ctx VariableFetcher) VNil)))
 //@   ensures [error-identity] (=> (not (= $ret1 ENil)) (= $ret1 (heap last.err)))
 //@   ensures [frame] (forall ((r Int)) (! (=> (< r (old (next))) (= (select (heap E_Value) r) (select (old (heap E_Value)) r))) :pattern ((select (heap E_Value) r))))
 //@   assigns next E_Value sent.* dyn.* last.err inv.*
@@ -669,7 +669,7 @@ package eval
 
 //@ func Expr.TryEvalBool C04 C05 C06
 //@   requires [wf] (WFT $e)
-//@   requires [ctx] (and (not (= $ctx 0)) (not (= (fld $ctx VariableFetcher) 0)))
+//@   requires [ctx] (and (not (= $ctx 0)) (not (= (fld $ctx VariableFetcher) VNil)))
 //@   ensures [dne-is-ErrDNE] true
 //@   assigns next E_Value sent.* dyn.* last.err inv.*
 //@ func DestructParamsStr2 C06
@@ -784,3 +784,132 @@ package eval
 //@     invariant [text-so-far] (= (select (heap SB.content) $&sb) (strListText (arr $v) (off $v) (+ $rangeindex 1)))
 //@   loop 2 (rangeindex)
 //@     invariant [text-so-far] (= (select (heap SB.content) $&sb) (intListText (arr $v) (off $v) (+ $rangeindex 1)))
+
+// ---------------------------------------------------------------------------
+// C11 — variable keys and fetchers.
+//@ macro (KEYMAP $cc) (fld $cc VariableKeyMap)
+//@ macro (INJECTIVE $m) (forall ((a Int) (b Int)) (! (=> (and (mapin $m a) (mapin $m b) (= (mapval $m a) (mapval $m b))) (= a b)) :pattern ((mapval $m a) (mapval $m b))))
+
+//@ func SliceVarFetcher.Get C11 C06
+//@   requires [non-negative-key] (>= $key 0)
+//@   ensures [in-range] (=> (< $key (len $s)) (and (= $ret1 ENil) (= $ret0 (idx $s $key))))
+//@   ensures [out-of-range] (=> (>= $key (len $s)) (not (= $ret1 ENil)))
+//@   assigns next E_any
+//@ func SliceVarFetcher.Cached C11 C06
+//@   ensures [in-range] (= $ret0 (< $key (len $s)))
+//@   assigns
+//@ func MapVarFetcher.Get C11 C06
+//@   ensures [bound] (=> (mapin $s $key) (and (= $ret1 ENil) (= $ret0 (mapval $s $key))))
+//@   ensures [unbound] (=> (not (mapin $s $key)) (not (= $ret1 ENil)))
+//@   assigns next E_any
+//@ func MapVarFetcher.Cached C11 C06
+//@   ensures [bound] (= $ret0 (mapin $s $key))
+//@   assigns
+
+//@ func varKeyRange C11
+//@   requires [config] (not (= $cc 0))
+//@   ensures [bounds] (forall ((k Int)) (! (=> (mapin (KEYMAP $cc) k) (and (<= $ret0 (mapval (KEYMAP $cc) k)) (<= (mapval (KEYMAP $cc) k) $ret1))) :pattern ((mapval (KEYMAP $cc) k))))
+//@   ensures [empty] (=> (forall ((k Int)) (not (mapin (KEYMAP $cc) k))) (and (= $ret0 32767) (= $ret1 -32768)))
+//@   ensures [attained] (=> (exists ((k Int)) (mapin (KEYMAP $cc) k)) (and (exists ((k Int)) (and (mapin (KEYMAP $cc) k) (= (mapval (KEYMAP $cc) k) $ret0))) (exists ((k Int)) (and (mapin (KEYMAP $cc) k) (= (mapval (KEYMAP $cc) k) $ret1)))))
+//@   assigns
+//@   loop 1
+//@     invariant [bounds-so-far] (forall ((k Int)) (! (=> (and (mapin (KEYMAP $cc) k) (< (iter.idx 1 k) (iter.pos 1))) (and (<= $min (mapval (KEYMAP $cc) k)) (<= (mapval (KEYMAP $cc) k) $max))) :pattern ((mapval (KEYMAP $cc) k))))
+//@     invariant [attained-so-far] (ite (= (iter.pos 1) 0) (and (= $min 32767) (= $max -32768))
+//@          (and (exists ((k Int)) (and (mapin (KEYMAP $cc) k) (= (mapval (KEYMAP $cc) k) $min))) (exists ((k Int)) (and (mapin (KEYMAP $cc) k) (= (mapval (KEYMAP $cc) k) $max)))))
+//@     decreases (- (iter.n 1) (iter.pos 1))
+
+// GetOrRegisterKey.  Injectivity of the key map is stated through an inverse: keyOwner(v) is the name that holds key v
+// (for every injective map such a function exists; the contract is proved for every function satisfying the
+// precondition).  INRANGE v: key v is in use.  The fall-through case (all of 1..n in use) needs the pigeonhole
+// fact, which SMT cannot derive (it is about cardinality): it is the named axiom `pigeonhole`, proved in Lean 4 +
+// Mathlib (/verif/lemmas/Pigeonhole.lean, checked by the thorough tier) and listed as trusted in the evidence.
+//@ ghost (declare-fun keyOwner (Int) Int)
+//@ macro (INRANGE $m $v) (and (mapin $m (keyOwner $v)) (= (mapval $m (keyOwner $v)) $v))
+//@ macro (OWNED $m) (forall ((k Int)) (! (=> (mapin $m k) (= (keyOwner (mapval $m k)) k)) :pattern ((mapval $m k))))
+//@ axiom [pigeonhole] (let ((m (old (KEYMAP $cc))))
+//@    (=> (and (OWNED m) (forall ((t Int)) (! (=> (and (<= 1 t) (<= t (len m))) (INRANGE m t)) :pattern ((keyOwner t)))))
+//@        (forall ((k Int)) (! (=> (mapin m k) (and (<= 1 (mapval m k)) (<= (mapval m k) (len m)))) :pattern ((mapval m k))))))
+
+//@ func GetOrRegisterKey C11
+//@   uses pigeonhole
+//@   requires [config] (and (not (= $cc 0)) (not (= (KEYMAP $cc) 0)) (OWNED (KEYMAP $cc)) (< (len (KEYMAP $cc)) 32767))
+//@   ensures [existing-name-keeps-its-key] (=> (old (mapin (KEYMAP $cc) $name)) (= $ret0 (old (mapval (KEYMAP $cc) $name))))
+//@   ensures [new-key-is-unused] (=> (not (old (mapin (KEYMAP $cc) $name))) (and (not (old (INRANGE (KEYMAP $cc) $ret0))) (<= 1 $ret0) (<= $ret0 (+ (old (len (KEYMAP $cc))) 1))))
+//@   ensures [name-now-bound-to-result] (and (mapin (KEYMAP $cc) $name) (= (mapval (KEYMAP $cc) $name) $ret0))
+//@   ensures [other-assignments-unchanged] (forall ((k Int)) (! (=> (not (= k $name)) (and (= (mapin (KEYMAP $cc) k) (old (mapin (KEYMAP $cc) k))) (= (mapval (KEYMAP $cc) k) (old (mapval (KEYMAP $cc) k))))) :pattern ((mapval (KEYMAP $cc) k))))
+//@   ensures [still-injective] (forall ((a Int) (b Int)) (! (=> (and (mapin (KEYMAP $cc) a) (mapin (KEYMAP $cc) b) (= (mapval (KEYMAP $cc) a) (mapval (KEYMAP $cc) b))) (= a b)) :pattern ((mapval (KEYMAP $cc) a) (mapval (KEYMAP $cc) b))))
+//@   loop 1
+//@     invariant [keyset-is-range-prefix] (forall ((v Int)) (! (= (and (mapin $keySet v) (mapval $keySet v)) (and (INRANGE (KEYMAP $cc) v) (< (iter.idx 1 (keyOwner v)) (iter.pos 1)))) :pattern ((mapin $keySet v))))
+//@     invariant [keymap-untouched] (and (= (mapdom (KEYMAP $cc)) (old (mapdom (KEYMAP $cc)))) (= (mapvals (KEYMAP $cc)) (old (mapvals (KEYMAP $cc)))) (not (= $keySet 0)) (not (= $keySet (KEYMAP $cc))))
+//@     decreases (- (iter.n 1) (iter.pos 1))
+//@   loop 2 (i)
+//@     invariant [prefix-in-use] (and (<= 1 $i) (<= $i (+ $size 1)) (forall ((t Int)) (! (=> (and (<= 1 t) (< t $i)) (INRANGE (KEYMAP $cc) t)) :pattern ((keyOwner t)))))
+//@     decreases (- (+ $size 1) $i)
+
+// unifyType: the normalisation table.  unifyScalar is the specification for the scalar cases (the list cases
+// allocate, they are stated element-wise).  Duration -> whole seconds (truncated), uint64 -> two's complement.
+//@ ghost (define-fun unifyScalar ((v Val)) Val
+//@   (ite (is.int v) (V_int64 (p_int v)) (ite (is.int32 v) (V_int64 (p_int32 v)) (ite (is.int16 v) (V_int64 (p_int16 v)) (ite (is.int8 v) (V_int64 (p_int8 v))
+//@   (ite (is.uint64 v) (V_int64 (wrapS64 (p_uint64 v))) (ite (is.uint32 v) (V_int64 (p_uint32 v)) (ite (is.uint16 v) (V_int64 (p_uint16 v)) (ite (is.uint8 v) (V_int64 (p_uint8 v))
+//@   (ite (is.Duration v) (V_int64 (tdiv (p_Duration v) 1000000000)) (ite (is.Time v) (V_int64 (timeUnix (p_Time v))) v)))))))))))
+//@ macro (ISLISTIN $v) (or (is.slice_int $v) (is.slice_int32 $v))
+//@ func unifyType C11
+//@   ensures [scalars-and-identity] (=> (not (ISLISTIN $val)) (= $ret0 (unifyScalar $val)))
+//@   ensures [int-list] (=> (is.slice_int $val) (let ((src (p_slice_int $val)))
+//@        (and (is.slice_int64 $ret0) (= (s_len (p_slice_int64 $ret0)) (s_len src)) (>= (s_arr (p_slice_int64 $ret0)) (old (next)))
+//@             (forall ((k Int)) (! (=> (and (<= 0 k) (< k (s_len src))) (= (select (elems int64 (p_slice_int64 $ret0)) (+ (s_off (p_slice_int64 $ret0)) k)) (select (old (elems int src)) (+ (s_off src) k))))
+//@                 :pattern ((select (elems int64 (p_slice_int64 $ret0)) (+ (s_off (p_slice_int64 $ret0)) k))))))))
+//@   ensures [int32-list] (=> (is.slice_int32 $val) (let ((src (p_slice_int32 $val)))
+//@        (and (is.slice_int64 $ret0) (= (s_len (p_slice_int64 $ret0)) (s_len src)) (>= (s_arr (p_slice_int64 $ret0)) (old (next)))
+//@             (forall ((k Int)) (! (=> (and (<= 0 k) (< k (s_len src))) (= (select (elems int64 (p_slice_int64 $ret0)) (+ (s_off (p_slice_int64 $ret0)) k)) (select (old (elems int32 src)) (+ (s_off src) k))))
+//@                 :pattern ((select (elems int64 (p_slice_int64 $ret0)) (+ (s_off (p_slice_int64 $ret0)) k))))))))
+//@   ensures [old-int64-arrays-untouched] (forall ((r Int)) (! (=> (< r (old (next))) (= (select (heap E_int64) r) (select (old (heap E_int64)) r))) :pattern ((select (heap E_int64) r))))
+//@   assigns next E_int64
+//@   loop 1 (rangeindex)
+//@     invariant [converted-prefix] (and (fresh $temp) (= (off $temp) 0) (= (len $temp) (len $v))
+//@        (forall ((k Int)) (! (=> (and (<= 0 k) (<= k $rangeindex)) (= (select (arr $temp) k) (select (old (arr $v)) (+ (off $v) k)))) :pattern ((select (arr $temp) k)))))
+//@     invariant [frame] (forall ((r Int)) (! (=> (< r (old (next))) (= (select (heap E_int64) r) (select (old (heap E_int64)) r))) :pattern ((select (heap E_int64) r))))
+//@   loop 2 (rangeindex)
+//@     invariant [converted-prefix] (and (fresh $temp) (= (off $temp) 0) (= (len $temp) (len $v))
+//@        (forall ((k Int)) (! (=> (and (<= 0 k) (<= k $rangeindex)) (= (select (arr $temp) k) (select (old (arr $v)) (+ (off $v) k)))) :pattern ((select (arr $temp) k)))))
+//@     invariant [frame] (forall ((r Int)) (! (=> (< r (old (next))) (= (select (heap E_int64) r) (select (old (heap E_int64)) r))) :pattern ((select (heap E_int64) r))))
+
+//@ func NewMapVarFetcher C11
+//@   ensures [fresh] (and (not (= $ret0 0)) (fresh $ret0))
+//@   ensures [same-names] (forall ((k Int)) (! (= (mapin $ret0 k) (old (mapin $vals k))) :pattern ((mapin $ret0 k))))
+//@   ensures [normalised-values] (forall ((k Int)) (! (=> (and (old (mapin $vals k)) (not (ISLISTIN (old (mapval $vals k))))) (= (mapval $ret0 k) (unifyScalar (old (mapval $vals k))))) :pattern ((mapval $ret0 k))))
+//@   loop 1
+//@     invariant [built-prefix] (and (not (= $s 0)) (fresh $s)
+//@        (forall ((k Int)) (! (= (mapin $s k) (and (old (mapin $vals k)) (< (iter.idx 1 k) (iter.pos 1)))) :pattern ((mapin $s k))))
+//@        (forall ((k Int)) (! (=> (and (old (mapin $vals k)) (< (iter.idx 1 k) (iter.pos 1)) (not (ISLISTIN (old (mapval $vals k))))) (= (mapval $s k) (unifyScalar (old (mapval $vals k))))) :pattern ((mapval $s k)))))
+//@     invariant [input-untouched] (and (= (mapdom $vals) (old (mapdom $vals))) (= (mapvals $vals) (old (mapvals $vals))))
+//@     decreases (- (iter.n 1) (iter.pos 1))
+
+//@ macro (KEYSOK $m) (forall ((k Int)) (! (=> (mapin $m k) (and (<= 0 (mapval $m k)) (< (mapval $m k) 32767))) :pattern ((mapval $m k))))
+//@ func NewSliceVarFetcher C11
+//@   requires [config] (and (not (= $cc 0)) (OWNED (KEYMAP $cc)) (KEYSOK (KEYMAP $cc)) (exists ((k Int)) (mapin (KEYMAP $cc) k)))
+//@   ensures [covers-every-key] (forall ((k Int)) (! (=> (old (mapin (KEYMAP $cc) k)) (< (old (mapval (KEYMAP $cc) k)) (len $ret0))) :pattern ((mapval (KEYMAP $cc) k))))
+//@   ensures [bound-names-readable-by-key] (forall ((k Int)) (! (=> (and (old (mapin (KEYMAP $cc) k)) (old (mapin $vals k)) (not (ISLISTIN (old (mapval $vals k)))))
+//@        (= (idx $ret0 (old (mapval (KEYMAP $cc) k))) (unifyScalar (old (mapval $vals k))))) :pattern ((mapval $vals k))))
+//@   loop 1
+//@     invariant [filled-prefix] (and (fresh $fetcher) (= (off $fetcher) 0)
+//@        (forall ((k Int)) (! (=> (old (mapin (KEYMAP $cc) k)) (< (old (mapval (KEYMAP $cc) k)) (len $fetcher))) :pattern ((mapval (KEYMAP $cc) k))))
+//@        (forall ((k Int)) (! (=> (and (old (mapin (KEYMAP $cc) k)) (< (iter.idx 1 k) (iter.pos 1)) (old (mapin $vals k)) (not (ISLISTIN (old (mapval $vals k)))))
+//@             (= (select (arr $fetcher) (old (mapval (KEYMAP $cc) k))) (unifyScalar (old (mapval $vals k))))) :pattern ((mapval $vals k)))))
+//@     invariant [inputs-untouched] (and (= (mapdom $vals) (old (mapdom $vals))) (= (mapvals $vals) (old (mapvals $vals))) (= (mapdom (KEYMAP $cc)) (old (mapdom (KEYMAP $cc)))) (= (mapvals (KEYMAP $cc)) (old (mapvals (KEYMAP $cc)))))
+//@     decreases (- (iter.n 1) (iter.pos 1))
+
+// NewCtxFromVars: whichever fetcher is chosen, a registered and bound name reads its normalised value through
+// (key, name).  FETCHED f key name v: what Get(key, name) returns on fetcher f is (v, nil) - by the contracts of the
+// two Get methods above.
+//@ macro (FETCHED $f $key $name $v) (ite (is.SliceVarFetcher $f)
+//@      (let ((s (p_SliceVarFetcher $f))) (and (<= 0 $key) (< $key (s_len s)) (= (select (elems Value s) (+ (s_off s) $key)) $v)))
+//@      (and (is.MapVarFetcher $f) (setin map_string_Value (p_MapVarFetcher $f) $name) (= (select (select (heap M_map_string_Value.val) (p_MapVarFetcher $f)) $name) $v)))
+//@ func NewCtxFromVars C11
+//@   requires [config] (and (not (= $cc 0)) (OWNED (KEYMAP $cc)) (=> (not (mapget (fld $cc CompileOptions) "allow_undefined_variable")) (forall ((k Int)) (! (=> (mapin (KEYMAP $cc) k) (< (mapval (KEYMAP $cc) k) 32767)) :pattern ((mapval (KEYMAP $cc) k))))))
+//@   ensures [context] (and (not (= $ret0 0)) (not (= (fld $ret0 VariableFetcher) VNil)))
+//@   ensures [undefined-variable-mode-uses-names] (=> (old (mapget (fld $cc CompileOptions) "allow_undefined_variable")) (is.MapVarFetcher (fld $ret0 VariableFetcher)))
+//@   ensures [slice-fetcher-only-for-small-non-negative-keys] (=> (is.SliceVarFetcher (fld $ret0 VariableFetcher))
+//@        (forall ((k Int)) (! (=> (old (mapin (KEYMAP $cc) k)) (and (<= 0 (old (mapval (KEYMAP $cc) k))) (< (old (mapval (KEYMAP $cc) k)) 256))) :pattern ((mapval (KEYMAP $cc) k)))))
+//@   ensures [registered-bound-names-read-their-value] (forall ((k Int)) (! (=> (and (old (mapin (KEYMAP $cc) k)) (old (mapin $vals k)) (not (ISLISTIN (old (mapval $vals k)))))
+//@        (FETCHED (fld $ret0 VariableFetcher) (old (mapval (KEYMAP $cc) k)) k (unifyScalar (old (mapval $vals k))))) :pattern ((mapval $vals k))))
